@@ -293,7 +293,13 @@ fn s_cmp(r: &mut Rng, id: u64) {
     let n = r.range(2, 7) as usize;
     let xs: Vec<ScalarValue> = (0..n).map(|_| gen(r, k, 20, p)).collect();
     // one cross-type / cross-parameter partner for the model tie
-    let other = if r.chance(1, 3) { gen(r, *r.pick(&["i8", "i16", "u64", "utf8", "lutf8", "ts_s", "ts_ns", "d128", "bool", "null"]), 20, r.below(6)) } else { gen(r, k, 20, p) };
+    let other = if r.chance(1, 3) {
+        let ok = *r.pick(&["i8", "i16", "u64", "utf8", "lutf8", "ts_s", "ts_ns", "d128", "bool", "null"]);
+        let op = r.below(6);
+        gen(r, ok, 20, op)
+    } else {
+        gen(r, k, 20, p)
+    };
     guard("cmp", id, || {
         let mut why = String::new();
         let mut models = Vec::new();
@@ -502,18 +508,18 @@ fn s_arith(r: &mut Rng, id: u64) {
                 match a.add_checked(&z) {
                     Ok(x) => {
                         // -0.0 + 0.0 = 0.0: compare by partial_cmp Equal-or-bits for floats
-                        let same_val = x == a || matches!((&x, &a), (ScalarValue::Float64(Some(u)), ScalarValue::Float64(Some(v))) if u == v) || matches!((&x, &a), (ScalarValue::Float32(Some(u)), ScalarValue::Float32(Some(v))) if u == v);
+                        let same_val = x == a || x.partial_cmp(&a) == Some(std::cmp::Ordering::Equal) || matches!((&x, &a), (ScalarValue::Float64(Some(u)), ScalarValue::Float64(Some(v))) if u == v) || matches!((&x, &a), (ScalarValue::Float32(Some(u)), ScalarValue::Float32(Some(v))) if u == v);
                         if !same_val && !nan {
                             why = format!("x + new_zero = {x:?} for x = {a:?}");
                         }
                     }
                     Err(e) => why = format!("x + new_zero failed: {e}"),
                 }
-                if one.sub_checked(&one).ok().as_ref() != Some(&z) {
+                if one.sub_checked(&one).ok().and_then(|x| x.partial_cmp(&z)) != Some(std::cmp::Ordering::Equal) {
                     why = format!("new_one - new_one <> new_zero for {dt:?}");
                 }
                 if let Ok(n) = neg {
-                    if one.add_checked(&n).ok().as_ref() != Some(&z) {
+                    if one.add_checked(&n).ok().and_then(|x| x.partial_cmp(&z)) != Some(std::cmp::Ordering::Equal) {
                         why = format!("new_one + new_negative_one <> new_zero for {dt:?}");
                     }
                 }
@@ -546,7 +552,8 @@ fn s_arith(r: &mut Rng, id: u64) {
 
 fn s_display(r: &mut Rng, id: u64) {
     let k = *r.pick(&["bool", "i8", "i16", "i32", "i64", "u8", "u16", "u32", "u64", "f32", "f64", "utf8", "lutf8", "utf8v", "date32", "d128"]);
-    let s = gen(r, k, 0, r.below(6));
+    let dp = r.below(6);
+    let s = gen(r, k, 0, dp);
     guard("display", id, || {
         let text = s.to_string();
         let back = ScalarValue::try_from_string(text.clone(), &s.data_type());
@@ -672,7 +679,7 @@ fn main() {
     let args: Vec<String> = std::env::args().collect();
     let seed: u64 = arg(&args, "--seed", "1").parse().unwrap();
     let n: u64 = arg(&args, "--n", "400").parse().unwrap();
-    std::panic::set_hook(Box::new(|_| {}));
+    if std::env::var("C34_TRACE").is_err() { std::panic::set_hook(Box::new(|_| {})); }
     let mut fid = 1_000_000u64;
     fixed(&mut fid);
     let mut r = Rng::new(seed);
